@@ -106,7 +106,8 @@ def run_direct(case):
                 out.fail('cache:partial-or-wrong:' + label.split(' ')[0], '%s: returned %d entries %r, stored %d' % (
                     label, len(snap), sorted(snap.items())[:2], len(want)))
         # intact, through every directory combination
-        ro = os.path.join(base, 'ro')
+        # the read-only directory's path starts with the writable one's (cache / cache.dist is a usual layout)
+        ro = os.path.join(base, 'rw2.dist')
         shutil.copytree(rw, ro)
         before = _dirstate(ro)
         check_fetch(TocCache(rw_cache=rw), 'intact rw', True)
@@ -153,6 +154,16 @@ def run_direct(case):
                     out.fail('cache:fetch-raises:garbage', repr(e))
             else:
                 check_fetch(TocCache(rw_cache=rw), label)
+        # a damaged file in the read-only directory is a miss and stays as it is
+        ro_path = os.path.join(ro, files[0])
+        for label, data in (('damaged ro truncated', content[:len(content) // 2]), ('damaged ro garbage', b'\xff\xfe\x00garbage')):
+            with open(ro_path, 'wb') as f:
+                f.write(data)
+            before = _dirstate(ro)
+            check_fetch(TocCache(ro_cache=ro, rw_cache=rw2), label)
+            check_fetch(TocCache(ro_cache=ro), label + ' (ro only)')
+            if _dirstate(ro) != before:
+                out.fail('cache:ro-written', '%s: read-only cache directory changed by a fetch' % label)
         os.remove(path)
         os.mkdir(path)
         check_fetch(TocCache(rw_cache=rw), 'directory in place of file')
@@ -182,7 +193,7 @@ def direct_case(draw):
         if kind == 'log':
             entries.append({'group': g, 'name': nm, 'type': draw(st.sampled_from(sorted(LOG_TYPES))), 'ident': draw(st.sampled_from([i, i, i + 255, i + 1000]))})
         else:
-            entries.append({'group': g, 'name': nm, 'type': draw(st.sampled_from(sorted(PARAM_TYPES))), 'ro': draw(st.booleans()),
+            entries.append({'group': g, 'name': nm, 'type': draw(st.sampled_from(sorted(PARAM_TYPES) + [0x05])), 'ro': draw(st.booleans()),
                             'extended': draw(st.booleans()), 'ident': draw(st.sampled_from([i, i, i + 255, i + 1000]))})
     crc = draw(st.one_of(st.integers(0, 0xFFFFFFFF), st.sampled_from([0, 1, 0x0ABCDEF1, 0x1ABCDEF1, 0x00000010, 0xFFFFFFFF, 0x000000FF])))
     return {'kind': kind, 'entries': entries, 'crc': crc}
@@ -201,7 +212,7 @@ def run_integrated(case):
     label = 'v%d nlog=%d nparam=%d crc=%08x/%08x damage=%r mode=%s' % (spec['version'], len(spec['log_toc']), len(spec['param_toc']),
                                                                         spec['log_crc'], spec['param_crc'], case['damage'], case['mode'])
     try:
-        d1 = os.path.join(base, 'c1')
+        d1 = os.path.join(base, 'cache.dist')
         with SimEnv(spec, net, case.get('schedule'), horizon=400.0) as env:
             s = env.s
             for rnd in range(2):
@@ -243,7 +254,7 @@ def run_integrated(case):
                     if case['mode'] == 'ro':
                         cf, rec = cfharness.make_cf(env, ro_cache=d1)
                     elif case['mode'] == 'ro+rw':
-                        cf, rec = cfharness.make_cf(env, ro_cache=d1, rw_cache=os.path.join(base, 'c2'))
+                        cf, rec = cfharness.make_cf(env, ro_cache=d1, rw_cache=os.path.join(base, 'cache'))
                     else:
                         cf, rec = cfharness.make_cf(env, rw_cache=d1)
                 done = []
